@@ -421,6 +421,36 @@ class EndToEnd(EnumContract):
                     bad.add("transform-invariance")
             except Exception:
                 bad.add("transform-invariance")
+        # more matrices and the row-wise / column-wise vectors (margins, bases, scale statistics)
+        for name in ("row_std_err", "column_std_err", "table_std_err", "pvals", "population_counts", "population_counts_moe",
+                     "column_proportions_moe", "row_unweighted_bases", "table_unweighted_bases", "column_weighted_bases",
+                     "row_percentages", "column_percentages", "table_percentages", "row_proportion_variances",
+                     "column_std_dev", "table_std_dev"):
+            try:
+                a = np.asarray(getattr(pt, name), dtype=float)
+                b = np.asarray(getattr(p0, name), dtype=float)
+                if a.shape != (len(ro), len(co)) or not close(a[np.ix_(rsel, csel)], b[np.ix_(r_src, c_src)], 1e-7):
+                    bad.add("transform-invariance")
+            except Exception:
+                bad.add("transform-invariance")
+        for name, axis in (("rows_margin", 0), ("rows_base", 0), ("columns_margin", 1), ("columns_base", 1),
+                           ("rows_scale_mean", 0), ("columns_scale_mean", 1)):
+            try:
+                a, b = getattr(pt, name), getattr(p0, name)
+                if a is None or b is None:
+                    if not (a is None and b is None):
+                        bad.add("transform-invariance")
+                    continue
+                a, b = np.asarray(a, dtype=float), np.asarray(b, dtype=float)
+                if b.ndim == 2:
+                    ok = close(a[np.ix_(rsel, csel)], b[np.ix_(r_src, c_src)], 1e-7)
+                else:
+                    sel, src = (rsel, r_src) if axis == 0 else (csel, c_src)
+                    ok = a.ndim == 1 and close(a[sel], b[src], 1e-7)
+                if not ok:
+                    bad.add("transform-invariance")
+            except Exception:
+                bad.add("transform-invariance")
         if tuple(pt.shape) != (len(ro), len(co)) or len(pt.row_labels) != len(ro) or len(pt.column_labels) != len(co):
             bad.add("shape-and-labels")
         # scalars unchanged
